@@ -290,6 +290,7 @@ func (ctx *_OpContextType) encodeRaw(as abi.As, arg *abi.AsArgument) (x uint32, 
 		return
 	case OpFormatType_cj_offset:
 		assert(arg.Imm&0b11 == 0)
+		assert(arg.Imm >= -(1<<22) && arg.Imm < (1<<22)) // offs21 << 2
 		imm := uint32(arg.Imm >> 2)
 		off16_20 := (imm >> 16) & 0b_1_1111
 		cj := ctx.regFCC(arg.Rs1)
@@ -298,6 +299,7 @@ func (ctx *_OpContextType) encodeRaw(as abi.As, arg *abi.AsArgument) (x uint32, 
 		return
 	case OpFormatType_rj_offset:
 		assert(arg.Imm&0b11 == 0)
+		assert(arg.Imm >= -(1<<22) && arg.Imm < (1<<22)) // offs21 << 2
 		imm := uint32(arg.Imm >> 2)
 		off16_20 := (imm >> 16) & 0b_1_1111
 		rj := ctx.regI(arg.Rs1)
@@ -306,6 +308,7 @@ func (ctx *_OpContextType) encodeRaw(as abi.As, arg *abi.AsArgument) (x uint32, 
 		return
 	case OpFormatType_rj_rd_offset:
 		assert(arg.Imm&0b11 == 0)
+		assert(arg.Imm >= -(1<<17) && arg.Imm < (1<<17)) // offs16 << 2
 		imm := uint32(arg.Imm >> 2)
 		rj := ctx.regI(arg.Rs1)
 		rd := ctx.regI(arg.Rd)
@@ -314,6 +317,7 @@ func (ctx *_OpContextType) encodeRaw(as abi.As, arg *abi.AsArgument) (x uint32, 
 		return
 	case OpFormatType_rd_rj_offset:
 		assert(arg.Imm&0b11 == 0)
+		assert(arg.Imm >= -(1<<17) && arg.Imm < (1<<17)) // offs16 << 2
 		imm := uint32(arg.Imm >> 2)
 		rd := ctx.regI(arg.Rd)
 		rj := ctx.regI(arg.Rs1)
@@ -322,6 +326,7 @@ func (ctx *_OpContextType) encodeRaw(as abi.As, arg *abi.AsArgument) (x uint32, 
 		return
 	case OpFormatType_offset:
 		assert(arg.Imm&0b11 == 0)
+		assert(arg.Imm >= -(1<<27) && arg.Imm < (1<<27)) // offs26 << 2
 		imm := uint32(arg.Imm >> 2)
 		off16_25 := (imm >> 16) & 0b_11_1111_1111
 		off0_15 := imm & 0xFFFF
